@@ -73,6 +73,16 @@ Theorem C10_strict_release_refused_refuted : exists s a m, strict s = true /\ 0 
 Proof. exact strict_release_refused_refuted. Qed.
 Print Assumptions C10_strict_release_refused_refuted.
 
+(* releases of less than one block: refused after fixes/fsm-dealloc-short.diff, accepted (rc 0, empty extent in the tree) before *)
+Theorem C10_short_release_refused : forall s addr len, fx_short (vr s) = true -> shr len (bpow s) < 1 ->
+  fst (deallocate s addr len) <> 0 /\ snd (deallocate s addr len) = s.
+Proof. exact short_release_refused. Qed.
+Print Assumptions C10_short_release_refused.
+Theorem C10_short_release_refused_refuted : exists s addr len, shr len (bpow s) < 1 /\
+  fst (deallocate s addr len) = 0 /\ In (0, shr addr (bpow s)) (tree (snd (deallocate s addr len))).
+Proof. exact short_release_refused_refuted. Qed.
+Print Assumptions C10_short_release_refused_refuted.
+
 Theorem C10_every_history_good_partial : forall ops s, Good s -> ok_run s ops -> Good (run s ops).
 Proof. exact run_good. Qed.
 Print Assumptions C10_every_history_good_partial.
